@@ -4,6 +4,7 @@
 package walkcase
 
 import (
+	"syscall"
 	"context"
 	"errors"
 	"fmt"
@@ -69,7 +70,9 @@ type Out struct {
 // Case is one scan.
 type Case struct {
 	UG, ISD, RS, EOFS, CB bool
+	ABS                    bool // scan roots carry an absolute Path (/vr<i>); PathsToExtract and DirsToSkip are given as absolute paths below root 0
 	MX, MI, CA, NExt       int
+	EK                     int // kind of the injected filesystem errors: 0 other (EIO-like), 1 permission, 2 not-exist
 	Paths, Skip            []string
 	HasRx, HasGl           bool
 	RxSet, GlSet           []string // directory paths the engines match (filled by the generator with the real engines)
@@ -157,7 +160,7 @@ func keys(m map[string]bool) []string {
 // Line renders the case line understood by lean/Drivers/Walk.lean.
 func (c *Case) Line() string {
 	var sb strings.Builder
-	fmt.Fprintf(&sb, "walk ug=%d,isd=%d,rs=%d,mx=%d,mi=%d,eofs=%d,cb=%d,ca=%d,next=%d", b(c.UG), b(c.ISD), b(c.RS), c.MX, c.MI, b(c.EOFS), b(c.CB), c.CA, c.NExt)
+	fmt.Fprintf(&sb, "walk ug=%d,isd=%d,rs=%d,mx=%d,mi=%d,eofs=%d,cb=%d,ca=%d,next=%d,ek=%d,abs=%d", b(c.UG), b(c.ISD), b(c.RS), c.MX, c.MI, b(c.EOFS), b(c.CB), c.CA, c.NExt, c.EK, b(c.ABS))
 	fmt.Fprintf(&sb, " %s %s", hexPaths(c.Paths, ";"), hexPaths(c.Skip, ";"))
 	set := func(has bool, s []string) string {
 		if !has {
@@ -241,6 +244,10 @@ func ParseLine(l string) *Case {
 			c.CA = n
 		case "next":
 			c.NExt = n
+		case "ek":
+			c.EK = n
+		case "abs":
+			c.ABS = n == 1
 		}
 	}
 	c.Paths = unhexPaths(t[2], ";")
@@ -337,7 +344,19 @@ func parseFaults(s string) Faults {
 
 // ---------------------------------------------------------------- the filesystem
 
-var errInj = errors.New("injected-io-error")
+var errInj error = errors.New("injected-io-error")
+
+// SetErrKind selects the error the fault sites return (the engine must treat all kinds alike, apart from log levels).
+func SetErrKind(k int) {
+	switch k {
+	case 1:
+		errInj = fmt.Errorf("injected: %w", fs.ErrPermission)
+	case 2:
+		errInj = syscall.ENOENT // errors.Is(err, fs.ErrNotExist)
+	default:
+		errInj = errors.New("injected-io-error")
+	}
+}
 
 // MemFS implements scalibrfs.FS over a Node tree with a fault plan.
 type MemFS struct {
@@ -603,6 +622,7 @@ type Result struct {
 func Run(c *Case, mk func(*scalibr.ScanConfig), slow time.Duration) string {
 	var calls []string
 	n := 0
+	SetErrKind(c.EK)
 	ctx, cancel := context.WithCancel(context.Background())
 	defer cancel()
 	if c.CB {
@@ -619,14 +639,33 @@ func Run(c *Case, mk func(*scalibr.ScanConfig), slow time.Duration) string {
 		exs = append(exs, fakeEx{id: e, c: c, req: req, calls: &calls, n: &n, stop: cancel})
 	}
 	var roots []*scalibrfs.ScanRoot
-	for _, r := range c.Roots {
+	for i, r := range c.Roots {
 		m := NewMemFS(r)
 		m.Slow = slow
-		roots = append(roots, &scalibrfs.ScanRoot{FS: m})
+		sr := &scalibrfs.ScanRoot{FS: m}
+		if c.ABS {
+			sr.Path = fmt.Sprintf("/vr%d", i)
+		}
+		roots = append(roots, sr)
+	}
+	paths, skip := c.Paths, c.Skip
+	if c.ABS {
+		mkAbs := func(ps []string) []string {
+			var o []string
+			for _, p := range ps {
+				if p == "." {
+					o = append(o, "/vr0")
+				} else {
+					o = append(o, "/vr0/"+p)
+				}
+			}
+			return o
+		}
+		paths, skip = mkAbs(c.Paths), mkAbs(c.Skip)
 	}
 	col := &coll{}
 	cfg := &scalibr.ScanConfig{FilesystemExtractors: exs, UseGitignore: c.UG, IgnoreSubDirs: c.ISD, ReadSymlinks: c.RS, MaxFileSize: c.MX, MaxInodes: c.MI,
-		ErrorOnFSErrors: c.EOFS, Stats: col, PathsToExtract: c.Paths, DirsToSkip: c.Skip, ScanRoots: roots, Capabilities: &plugin.Capabilities{}}
+		ErrorOnFSErrors: c.EOFS, Stats: col, PathsToExtract: paths, DirsToSkip: skip, ScanRoots: roots, Capabilities: &plugin.Capabilities{}}
 	mk(cfg)
 	body := func() (out string) {
 		defer func() {
